@@ -688,6 +688,11 @@ func c07Differential(c *core.Ctx) {
 			judge(flipBit(m, 8*(len(m)-1)), "double-fault:unregistered+signature-bit")
 			judge(w.build(r, c07Opts{origin: origin, requestKey: append([]byte{2}, bytes.Repeat([]byte{0xff}, 48)...), signWith: unrelated}).enc, "double-fault:malformed-request-key+foreign-signature")
 		}
+		// bytes inserted in FRONT of the signature (the last 96 bytes stay a valid signature of the original message)
+		for _, junk := range [][]byte{{0}, r.Bytes(1), r.Bytes(5), r.Bytes(96), a.enc[len(a.enc)-96:]} {
+			m := append(append(clone(a.enc[:len(a.enc)-96]), junk...), a.enc[len(a.enc)-96:]...)
+			judge(m, "bytes-inserted-before-the-signature")
+		}
 		// truncations / extensions at seeded positions
 		judge(a.enc[:r.IntN(len(a.enc))], "truncated")
 		judge(append(clone(a.enc), r.Bytes(1+r.IntN(5))...), "extended")
